@@ -27,6 +27,7 @@ RULE = (
     "history: Hypothesis state machine over several adapters (key pool so that objects share keys), the cmac() helper, the '.iv = zeros' assignment "
     "AesEncryptorMixin performs, and raw mode objects / feeders of all modes (incl. default-counter CTR) interleaved; every adapter result must equal the pure "
     "function of (key, constructor IV, data), every mode object result must equal the one-shot oracle over exactly the bytes fed to that object. "
+    "mixed: ONE ECB/CBC object used for encryption and decryption in a generated order (CBC: either chaining-register reading of the recurrence is accepted); block results kept by the caller across later calls on the same AES object must stay what they were. "
     "Non-trivial = data not block aligned, or >= 2 chunks, or >= 2 calls on one object (tables/block: every entry / every (key, block) pair); distinct by case hash."
 )
 ASSUMPTIONS = [
@@ -41,7 +42,7 @@ ASSUMPTIONS = [
 ]
 REQUIRED_CLASSES = (
     ["table." + t for t in ("S", "Si", "T1", "T2", "T3", "T4", "T5", "T6", "T7", "T8", "U1", "U2", "U3", "U4", "rcon")]
-    + ["block.key=16", "block.key=24", "block.key=32", "block.vector=fips197"]
+    + ["block.key=16", "block.key=24", "block.key=32", "block.vector=fips197", "mixed.decrypt-right-after-encrypt"]
     + ["mode=ecb", "mode=cbc", "mode=cfb8", "mode=cfb128", "mode=ofb", "mode=ctr", "via=raw", "via=feeder", "dir=enc", "dir=dec",
        "padding=default", "padding=none", "split.chunks>=2", "split.has-1-byte-chunk", "data.len%16!=0", "data.len=0", "ctr.wrap", "ctr.carry",
        "ctr.default", "iv=default", "via=stream-helper", "stream-helper.short-read-before-eof", "mode.key=16", "mode.key=24", "mode.key=32", "vector=sp800-38a"]
@@ -226,6 +227,19 @@ def check_block(case, rec):
     fwd = _sut_block(aes.AES(key).encrypt, conv(got_d), "AES.encrypt")
     if fwd != block:
         raise Violation("AES-%d encrypt(decrypt(b)) != b: key=%s b=%s got %s" % (len(key) * 8, key.hex(), block.hex(), fwd.hex()))
+    # results are the CALLER's values: kept across later calls on the same object ([a.encrypt(b) for b in blocks]) they stay what they were
+    kept = []
+    try:
+        kept.append(("encrypt(b)", a.encrypt(conv(block)), want_c))
+        kept.append(("decrypt(b)", a.decrypt(conv(block)), want_d))
+        kept.append(("encrypt(D(b))", a.encrypt(conv(want_d)), block))
+        kept.append(("decrypt(E(b))", a.decrypt(conv(want_c)), block))
+    except Exception as e:
+        raise Violation("repeated block calls on one AES object raised %s: %s" % (type(e).__name__, e))
+    for what, r, want in kept:
+        if bytes(r) != want:
+            raise Violation("AES-%d key=%s b=%s: the value returned by %s, looked at after the NEXT calls on the same object, is %s (it was/should be %s): results of one object share storage" % (
+                len(key) * 8, key.hex(), block.hex(), what, bytes(r).hex(), want.hex()))
 
 
 def noise(n):
@@ -1078,12 +1092,63 @@ def history_rules(tier):
     }
 
 
+# ================================================================================================ part: mixed directions on one object
+def check_mixed(case, rec):
+    """ONE ECB / CBC mode object used for encryption AND decryption, block by block in a generated order.  ECB: every call is the block
+    function.  CBC: p = D(c) xor (previous ciphertext block) where 'previous' is, by the standard recurrence, the last ciphertext block of the
+    stream the object has processed - either counted over both directions (one chaining register, pyaes' behaviour) or per direction (two
+    registers); both readings are accepted, anything else is not CBC."""
+    key, iv, mode, ops = case["key"], case["iv"], case["mode"], case["ops"]
+    rec.cls("mixed.mode=" + mode)
+    try:
+        m = aes.AESModeOfOperationECB(key) if mode == "ecb" else aes.AESModeOfOperationCBC(key, iv=iv)
+    except Exception as e:
+        raise Violation("constructing the %s object raised %s: %s" % (mode, type(e).__name__, e))
+    E = lambda b: ossl.aes("ecb", key, None, b, True)  # noqa: E731
+    D = lambda b: ossl.aes("ecb", key, None, b, False)  # noqa: E731
+    x = lambda a, b: bytes(p ^ q for p, q in zip(a, b))  # noqa: E731
+    shared = enc_last = dec_last = iv
+    dirs = []
+    for n, (d, blk) in enumerate(ops):
+        try:
+            got = bytes(m.decrypt(blk) if d else m.encrypt(blk))
+        except Exception as e:
+            raise Violation("%s object, call %d (%s after %s) raised %s: %s" % (mode, n + 1, "decrypt" if d else "encrypt", dirs, type(e).__name__, e))
+        if mode == "ecb":
+            wants = [D(blk) if d else E(blk)]
+        elif d:
+            wants = [x(D(blk), shared), x(D(blk), dec_last)]
+            shared = dec_last = blk
+        else:
+            wants = [E(x(blk, shared)), E(x(blk, enc_last))]
+            # which register the object uses is fixed by its first answer that tells the two apart; keep both models running
+            shared = enc_last = got if got in wants else wants[0]
+        if got not in wants:
+            raise Violation("%s object (key %s, iv %s): call %d, %s(%s) after calls %s returned %s; the CBC recurrence gives %s (one chaining register) or %s (one per direction)" % (
+                mode, key.hex(), iv.hex(), n + 1, "decrypt" if d else "encrypt", blk.hex(), dirs, got.hex(), wants[0].hex(), wants[-1].hex()))
+        dirs.append("dec" if d else "enc")
+    if "enc" in dirs and "dec" in dirs:
+        rec.cls("mixed.both-directions")
+        if any(a == "enc" and b == "dec" for a, b in zip(dirs, dirs[1:])):
+            rec.cls("mixed.decrypt-right-after-encrypt")
+        rec.nt()
+
+
+def strat_mixed(tier):
+    blk = st.one_of(st.binary(min_size=16, max_size=16), st.sampled_from([bytes(16), bytes(range(16)), b"\xff" * 16]))
+    return st.fixed_dictionaries(dict(
+        key=any_key(), iv=st.one_of(st.binary(min_size=16, max_size=16), st.just(ZERO)), mode=st.sampled_from(["cbc", "cbc", "ecb"]),
+        ops=st.lists(st.tuples(st.booleans(), blk), min_size=2, max_size=6),
+    ))
+
+
 # ================================================================================================ parts
 def parts(tier):
     return [
         Part("tables", check=check_table_entry, bulk=bulk_tables, quick=(3, 0), thorough=(3, 0), exhaustive=True),
         Part("block_vectors", check=check_block, enum=enum_block, quick=(8, 0), thorough=(8, 0), exhaustive=True),
         Part("block", check=check_block, strategy=strat_block, quick=(8, 400), thorough=(16, 6000)),
+        Part("mixed", check=check_mixed, strategy=strat_mixed, quick=(4, 150), thorough=(16, 1500)),
         Part("vectors", check=check_mode, enum=enum_vectors, quick=(8, 0), thorough=(8, 0), exhaustive=True),
         Part("modes", check=check_mode, strategy=strat_mode, quick=(16, 500), thorough=(16, 5000)),
         Part("adapter_grid", check=check_adapter, enum=enum_adapter_grid, quick=(8, 0), thorough=(16, 0), exhaustive=True),
